@@ -302,6 +302,76 @@ pub fn run(ctx: &Ctx) {
     });
 }
 
+/// per-worker path: K hellos on distinct flows, each in generated segments, interleaved, through the TLS worker pool
+pub fn run_pool_variant(ctx: &Ctx) {
+    use crate::pool::{run_pool, PoolCfg, PoolKind};
+    ctx.shrink_iters.store(15, std::sync::atomic::Ordering::Relaxed);
+    let n = ctx.tier.pick(1_500, 30_000);
+    ctx.run_prop(
+        "tls-pool-segmented",
+        "2..6 generated hellos on distinct flows, each cut into generated segments (first segment >= 5 bytes), segments of the flows interleaved, dispatched to the TLS worker pool (1..8 workers, batch 1..32); oracle: exactly one result per flow, equal to the single-segment sequential result; non-trivial: >= 2 flows with >= 2 segments",
+        n,
+        || (proptest::collection::vec((gt::hello(), proptest::collection::vec(any::<u16>(), 0..5)), 2..6), 1usize..9, 1usize..33, any::<u64>()),
+        |(flows, workers, batch, seed): &(Vec<(Hello, Vec<u16>)>, usize, usize, u64), st: &mut Stats| {
+            let mut per_flow: Vec<Vec<Vec<u8>>> = vec![];
+            let mut expect: Vec<String> = vec![];
+            for (i, (h, cuts)) in flows.iter().enumerate() {
+                if !h.fits() || h.record().len() > 16000 {
+                    st.discards += 1;
+                    return Ok(());
+                }
+                let rec = h.record();
+                let ip = Ip::V4(Ip4 { src: [10, 7, 0, i as u8 + 1], dst: [10, 7, 1, 1], ..Ip4::default() });
+                let mut cp = cut_positions(cuts, rec.len());
+                cp.retain(|c| *c >= 5);
+                let frames = seg_frames(&ip, 42000 + i as u16, 443, 1000, &split(&rec, &cp));
+                // reference: single segment, sequential
+                let mut fl = ttl_cache::TtlCache::new(4);
+                let single = seg_frames(&ip, 42000 + i as u16, 443, 1000, &[rec.clone()]);
+                match tls_feed(&single[0], &mut fl) {
+                    Ok(Some(o)) => expect.push(crate::drive::tls_out_str(&o)),
+                    _ => return Err(fail!("pool:reference-not-reported", "flow {i}")),
+                }
+                per_flow.push(frames);
+            }
+            if per_flow.iter().filter(|f| f.len() >= 2).count() >= 2 {
+                st.nontrivial(&(flows, workers));
+            }
+            // order-preserving interleaving
+            let mut r = crate::engine::SplitMix(*seed);
+            let mut idx = vec![0usize; per_flow.len()];
+            let mut frames = vec![];
+            loop {
+                let alive: Vec<usize> = (0..per_flow.len()).filter(|i| idx[*i] < per_flow[*i].len()).collect();
+                if alive.is_empty() {
+                    break;
+                }
+                let k = alive[r.below(alive.len() as u64) as usize];
+                frames.push(per_flow[k][idx[k]].clone());
+                idx[k] += 1;
+            }
+            let cfg = PoolCfg { workers: *workers, queue: frames.len() + 8, batch: *batch, timeout_ms: 3, dispatchers: 1, perturb: Some(*seed), max_sleep_us: 100 };
+            let run = run_pool(PoolKind::Tls, &frames, &cfg, None, None).map_err(|e| fail!("pool:new", "{e}"))?;
+            if let Some(p) = &run.worker_panic {
+                return Err(Fail::new(format!("pool:worker-{}", crate::engine::panic_key(p)), p.clone()));
+            }
+            if run.drain_timeout {
+                st.discards += 1;
+                return Ok(());
+            }
+            st.sample(|| json!({"flows": flows.len(), "workers": workers, "frames": frames.len()}));
+            let mut got: Vec<String> = run.results.iter().map(|(_, s)| s.clone()).collect();
+            let mut exp = expect.clone();
+            got.sort();
+            exp.sort();
+            if got != exp {
+                return Err(fail!("pool:results-differ-from-single-segment", "{} results for {} flows (workers {workers}, batch {batch})", got.len(), exp.len()));
+            }
+            Ok(())
+        },
+    );
+}
+
 /// thorough tier: coverage-guided differential campaign
 pub fn fuzz(ctx: &Ctx) {
     if ctx.tier == crate::engine::Tier::Thorough {
